@@ -8,9 +8,20 @@
 
     Per non-empty read, in this order: decode THE CHUNK ALONE (fresh decoder),
     write+flush to the output stream unless hidden, append to the capture
-    buffer, submit the whole joined buffer to the watchers.  No proofs here. *)
-From InvokeVerif Require Export Model.Utf8Model.
+    buffer, submit the whole joined buffer to the watchers.  The stream objects
+    ([mirror], Common/MirrorStream.v) may advertise an encoding; the write hands
+    them the decoded text regardless ([write_our_output]).  No proofs here. *)
+From InvokeVerif Require Export Model.Utf8Model Common.MirrorStream.
 Local Open Scope N_scope.
+
+(** [Runner.write_our_output(stream, string)]: [stream.write(string); stream.flush()].
+    The text handed to the stream object is the decoded piece as it is: the
+    stream's [encoding] attribute (and what kind of stream it is) is not consulted. *)
+Definition write_our_output (m : mirror) (d : text) : text := d.
+
+(** What the mirror stream [m] holds after the loop's writes [ws] (one per decoded piece). *)
+Definition mirrored (m : mirror) (ws : list text) : text :=
+  stream_content m (map (write_our_output m) ws).
 
 Record loop_out := mkLoop {
   lo_buf : list text;       (* the capture buffer (list of decoded pieces) *)
@@ -86,13 +97,16 @@ Record run_in := mkIn {
   ri_out_given : bool;      (* explicit out_stream *)
   ri_err_given : bool;
   ri_pty : bool;
-  ri_async : bool
+  ri_async : bool;
+  ri_out_mirror : mirror;   (* the stream stdout is forwarded to: advertised encoding, kind *)
+  ri_err_mirror : mirror
 }.
 
 Record run_obs := mkObs {
   ro_stdout : text;         (* Result.stdout (or the Result inside the failure) *)
   ro_stderr : text;
-  ro_out_stream : text;     (* everything the out stream object received *)
+  ro_out_stream : text;     (* content of the out stream object ([stream_content]): for a recording
+                               stream everything it was handed, for a wrapper what it made of that *)
   ro_err_stream : text;
   ro_out_submits : list text;
   ro_err_submits : list text
@@ -104,7 +118,7 @@ Definition run_model (i : run_in) : run_obs :=
   let e := if ri_pty i then mkLoop [] [] []
            else handle_output (ri_enc i) (snd h) (ri_err i) [] in
   mkObs (List.concat (lo_buf o)) (List.concat (lo_buf e))
-        (List.concat (lo_writes o)) (List.concat (lo_writes e))
+        (mirrored (ri_out_mirror i) (lo_writes o)) (mirrored (ri_err_mirror i) (lo_writes e))
         (lo_submits o) (lo_submits e).
 
 Definition run_model_inc (i : run_in) : run_obs :=
@@ -113,5 +127,19 @@ Definition run_model_inc (i : run_in) : run_obs :=
   let e := if ri_pty i then mkLoop [] [] []
            else handle_output_inc (ri_enc i) (snd h) DInit (ri_err i) [] in
   mkObs (List.concat (lo_buf o)) (List.concat (lo_buf e))
-        (List.concat (lo_writes o)) (List.concat (lo_writes e))
+        (mirrored (ri_out_mirror i) (lo_writes o)) (mirrored (ri_err_mirror i) (lo_writes e))
         (lo_submits o) (lo_submits e).
+
+(** The texts handed to [write()] of the out / err mirror stream, call by call. *)
+Definition run_writes_inc (i : run_in) : list text * list text :=
+  let h := effective_hide (ri_hide i) (ri_async i) (ri_out_given i) (ri_err_given i) in
+  let o := handle_output_inc (ri_enc i) (fst h) DInit (ri_out i) [] in
+  let e := if ri_pty i then mkLoop [] [] []
+           else handle_output_inc (ri_enc i) (snd h) DInit (ri_err i) [] in
+  (map (write_our_output (ri_out_mirror i)) (lo_writes o),
+   map (write_our_output (ri_err_mirror i)) (lo_writes e)).
+
+(** the same run with other mirror streams *)
+Definition with_mirrors (i : run_in) (mo me : mirror) : run_in :=
+  mkIn (ri_enc i) (ri_out i) (ri_err i) (ri_hide i) (ri_out_given i) (ri_err_given i)
+       (ri_pty i) (ri_async i) mo me.
